@@ -21,6 +21,22 @@ PROPS = {
                         "sync.Mutex in provider.go is replaced by simsync.Mutex (same method set) at build time",
                         "interleavings are explored at statement granularity, not inside expressions"],
     },
+    "C01": {
+        "level": "exploration",
+        "budget": {"quick": 50, "thorough": 600},
+        "runs": {"quick": 16000, "thorough": 1200000},
+        "rule": "one run = the real sync.Run loop for 3..50 rounds on a simulated system clock with a recording discipline, 0..7 scripted reference clocks and "
+                "0..7 scripted peers (per call: answer / fail / answer late into later rounds / return on cancellation / ignore cancellation; offsets boundary-dense over int64: "
+                "0, +-1, +-cutoff+-1, +-cap+-k, +-2^62, MinInt64, MaxInt64, random), admissible configurations (boundary impact factors, cutoffs, timeouts 0..interval/2, intervals 1ms..1h) "
+                "and each class of inadmissible one; non-trivial = at least 3 rounds completed or an inadmissible configuration refused; distinct = distinct event-log hash",
+        "required_probes": ["exact-round", "partial-round", "both-groups", "cutoff-suppressed", "clamped-ref", "clamped-peer", "inadmissible-refused"],
+        "components": {"real": ["core/sync Run, measureOffsetToRefClks", "core/client ReferenceClockClient.MeasureClockOffsets, collectMeasurements",
+                                "core/measurements FaultTolerantMidpoint", "base/timemath"],
+                       "stub": dict(STUBS_COMMON, **{"reference clocks and peers": "scripted client.ReferenceClock", "discipline": "recording adjustments.Adjustment",
+                                                     "context deadline": "context.WithTimeout in sync.go substituted by a scheduler event (simsync.WithTimeout)"})},
+        "assumptions": ["the per-interval drift allowance is the simulated clock's Drift(interval); caps are impact x that value",
+                        "float tolerance 2 ns + 1e-12 relative on bounds, 3 ns on exact values; exact value only checked when every source answered before the deadline and |values| <= 2^62"],
+    },
     "C16": {
         "level": "exploration",
         "budget": {"quick": 40, "thorough": 600},
@@ -34,6 +50,30 @@ PROPS = {
                        "stub": dict(STUBS_COMMON, **{"reference clocks": "scripted client.ReferenceClock implementations"})},
         "assumptions": ["goroutine quiescence is measured with runtime.NumGoroutine against a baseline taken inside the bubble"],
     },
+    "C17": {
+        "level": "exploration",
+        "budget": {"quick": 30, "thorough": 400},
+        "runs": {"quick": 30000, "thorough": 2000000},
+        "rule": "one run = one filter instance (lucky-packet with capacity 1..64 and pick 1..80, unconfigured lucky-packet, or Ntimed) fed 1..80 samples that are the four "
+                "timestamps of simulated exchanges (true offset up to +-55 h, delays with 0..200 ms jitter, distinct round-trip delays for the lucky-packet comparison), "
+                "with an explicit Reset or a clock-epoch change (registered simulated clock stepped) at a tape-chosen position; non-trivial = at least two samples; distinct = distinct event-log hash",
+        "required_probes": ["window-full", "picked-subset", "unconfigured", "raw-early", "fresh-equal", "reset", "epoch-change"],
+        "components": {"real": ["core/client LuckyPacketFilter, NtimedFilter", "core/timebase.Epoch via the registered clock", "net/ntp ClockOffset/RoundTripDelay"],
+                       "stub": dict(STUBS_COMMON)},
+        "assumptions": ["Ntimed clause 'whenever a sample lies within its learned delay bounds' is checked only through the first-three-samples rule and the metamorphic reset check (the bounds are internal)",
+                        "raw-offset tolerance for Ntimed: 4 ns + 8e-15 x magnitude of the one-way differences (float64 seconds)"],
+    },
+    "C19": {
+        "level": "exploration",
+        "budget": {"quick": 30, "thorough": 400},
+        "runs": {"quick": 30000, "thorough": 2000000},
+        "rule": "one run = 5..64 updates (offset over the whole int64 range with boundary values around 1 ms, weight in {0,1,3,3.0000001,4,49,50,100,149,150,1000,1e6}) of the real Pll at "
+                "gaps from 0 to 600 s on a simulated clock that records Step/Adjust, bumps its epoch on Step and is stepped from outside with probability 1/15 per update; "
+                "non-trivial = at least one Step or Adjust was requested; distinct = distinct event-log hash",
+        "required_probes": ["step", "adjust", "adjust-nonzero", "initial-step-decision", "epoch-restart"],
+        "components": {"real": ["core/sync/adjustments Pll", "base/timemath"], "stub": dict(STUBS_COMMON)},
+        "assumptions": ["'start of the current clock epoch' is the first update observed in that epoch", "slew bound checked as |offset| <= 500e-6 x ceil(seconds since the previous update) + 1 ns"],
+    },
 }
 
 NOT_APPLICABLE = {
@@ -44,8 +84,20 @@ NOT_APPLICABLE = {
 
 # Properties that the design claims but whose world is not built yet (kept current).
 NOT_YET = {p: "designed (DESIGN.md section 3) but the simulated world is not built yet; not claimed until its check runs"
-           for p in ["C01", "C03", "C05", "C06", "C07", "C08", "C09", "C10", "C11", "C13", "C14", "C15", "C17", "C19", "C20"]}
+           for p in ["C03", "C05", "C06", "C07", "C08", "C09", "C10", "C11", "C13", "C14", "C15", "C20"]}
 
+PROPS["C01"].update(
+    level_text="seeded exploration of multi-round histories of the real synchronization loop with scripted sources (values over the whole int64 range, failures, late answers, sources that never answer) and admissible/inadmissible configurations; per-round invariants: exactly one correction, magnitude bounds from the statement, exact value when every source answered in time, correction no later than the round's timeout; start-up refusal of inadmissible settings. Evidence, not proof.",
+    level_note="trusts the simulated SystemClock (Drift, Sleep), scripted sources and the substitution of the per-round context deadline by a scheduler event; bounds are computed in float64 with the stated tolerances",
+    technique="deterministic simulation: seeded scheduler + virtual time, per-round invariants against a reference computation")
+PROPS["C17"].update(
+    level_text="seeded exploration of sample histories with resets and clock-epoch changes; lucky-packet filter compared sample by sample with a reference model written from the statement, Ntimed filter checked for raw output on the first three samples after any reset and for history independence after Reset/epoch change against a fresh instance. Evidence, not proof.",
+    level_note="the Ntimed 'within learned bounds' clause is only covered indirectly (scope stated in DESIGN.md); trusts the registered simulated clock for the epoch",
+    technique="deterministic simulation: generated histories on a simulated clock, reference model and metamorphic reset check")
+PROPS["C19"].update(
+    level_text="seeded exploration of update histories of the real PLL on a scripted clock with external epoch changes; a small model of the start-up sequence written from the statement decides for every recorded Step/Adjust whether it was allowed. Evidence, not proof.",
+    level_note="trusts the simulated SystemClock (records Step/Adjust, epoch bump on Step); clock readings are non-decreasing as the statement requires",
+    technique="deterministic simulation: scripted clock with injected steps, invariants on recorded actuation calls")
 PROPS["C12"].update(
     level_text="seeded exploration of call histories and statement-level interleavings of the real Provider under a virtual clock over weeks of virtual time; per-call invariants from the statement plus a porcupine linearizability check against a permissive model. Evidence, not proof.",
     level_note="trusts testing/synctest's fake clock, the simulator-aware mutex substituted for sync.Mutex, and that interleavings finer than statements do not matter; constants (24h, 3d, 2d) are taken from the property statement",
